@@ -14,7 +14,7 @@ CHECK = {'level': 'exploration',
          '0-3 toggle keys per level put the subtree at 253-255 nodes first, a fill batch completes it, 2-4 further batches set/delete toggle '
          'keys, extra keys in occupied slots (256 leaves + 1), last-bit siblings and base keys (255<->256 transitions in both directions), '
          'with reopen; undirected large maps of 1500/2500 uniform keys and a 38-byte module-store shape (1200/2000 keys under one 6-byte '
-         'prefix) where the same happens by size; 300-900 events per block for the event-root pattern. In every dense state: model root, '
+         'prefix) where the same happens by size; 400-1000 events per block for the event-root pattern. In every dense state: model root, '
          '1-16-key proofs around the dense region + one proof over the whole dense family, tamperings, one-batch rebuild, second route in '
          'two sorted batches on another store. Non-trivial dense case = a 256-node subtree was read back from the store (by Prove or by a '
          'later Update); labels record the count byte actually found in the store under the subtree root. Non-trivial history = final map >= 2 keys and (a present key was deleted or two keys '
